@@ -1261,8 +1261,12 @@ class Exec:
             return i
         if kind_of(i) == "int":
             dz = to_z3(dim, "int")
+            if getattr(self, "_spec_depth", 0) > 0:
+                return i  # spec-level arrays are total functions of their (non-negative) index
             if check and self.ctx.options.get("index_checks", True):
                 self.oblige("index", z3.And(i >= -dz, i < dz), f"index {ast.unparse(n)[:50]} within [-size, size)", n)
+            if not self.feasible(i < 0):
+                return i  # provably non-negative on this path: no wrap-around term
             return z3.If(i < 0, i + dz, i)
         raise Unsupported(f"array index of type {type(i).__name__}")
 
